@@ -345,8 +345,20 @@ def check_gates(rep: Report, prog: Program, rid: str) -> None:
                             and isinstance(a.value, ast.Call) and isinstance(a.value.func, ast.Attribute):
                         for hq in prog.method("Quantity", a.value.func.attr):
                             h = prog.functions[hq]
+                            def _dim_test(t_: ast.AST, depth_: int = 0) -> bool:
+                                """compares two .dimension values, directly or through a one-expression predicate of the class"""
+                                if ast.unparse(t_).count(".dimension") >= 2:
+                                    return True
+                                if depth_ < 2:
+                                    for c_ in ast.walk(t_):
+                                        if isinstance(c_, ast.Call) and isinstance(c_.func, ast.Attribute):
+                                            for pq in prog.method("Quantity", c_.func.attr):
+                                                pf = prog.functions[pq]
+                                                if any(isinstance(r_, ast.Return) and r_.value is not None and _dim_test(r_.value, depth_ + 1) for r_ in ast.walk(pf.node)):
+                                                    return True
+                                return False
                             for hs in ast.walk(h.node):
-                                if isinstance(hs, ast.If) and ast.unparse(hs.test).count(".dimension") >= 2 and hs.body \
+                                if isinstance(hs, ast.If) and _dim_test(hs.test) and hs.body \
                                         and isinstance(hs.body[-1], ast.Return) and ast.unparse(hs.body[-1].value or ast.Constant(0)) == "None":
                                     gate, via = n, hq
         sens = []
@@ -514,6 +526,25 @@ def check_plain_ctor(rep: Report, prog: Program, rid: str, cls: str, fields: Dic
             return outs or [e.id]
         if isinstance(e, ast.IfExp):
             return expand(e.body, at, depth) + expand(e.orelse, at, depth)
+        if isinstance(e, ast.Call) and isinstance(e.func, ast.Name) and not e.keywords:
+            # a small helper of the package (`_as_width(measurand, uncertainty)`): each of its returns, parameters substituted
+            hq = prog.modules[fi.module].functions.get(e.func.id)
+            h = prog.functions.get(hq) if hq else None
+            if h is not None and len(h.params()) == len(e.args) and not any(isinstance(x, (ast.For, ast.While, ast.Try, ast.With)) for x in ast.walk(h.node)):
+                import copy as _copy
+                mapping = dict(zip(h.params(), e.args))
+
+                class _Sub(ast.NodeTransformer):
+                    def visit_Name(self, n_: ast.Name) -> ast.AST:
+                        return _copy.deepcopy(mapping[n_.id]) if n_.id in mapping else n_
+                outs_h: List[str] = []
+                hassigned = {x.id for st_ in ast.walk(h.node) if isinstance(st_, (ast.Assign, ast.AugAssign)) for t_ in (st_.targets if isinstance(st_, ast.Assign) else [st_.target])
+                             for x in ast.walk(t_) if isinstance(x, ast.Name)}
+                rets_h = [r for r in ast.walk(h.node) if isinstance(r, ast.Return) and r.value is not None]
+                if rets_h and not hassigned:
+                    for r in rets_h:
+                        outs_h += expand(_Sub().visit(_copy.deepcopy(r.value)), at, depth + 1)
+                    return outs_h
         if isinstance(e, ast.Call):
             parts = [expand(a, at, depth + 1) for a in e.args]
             outs = [ast.unparse(e.func).replace(" ", "") + "("]
